@@ -150,6 +150,13 @@ def bip143Digest (H : Bytes → Bytes) (scriptCode : Bytes) (ht : UInt32) (tx : 
 
 /-! ### BIP341 / BIP342 -/
 
+/-- "TapLeaf" -/
+def tapLeafTag : Bytes := [0x54, 0x61, 0x70, 0x4c, 0x65, 0x61, 0x66]
+
+/-- BIP341 leaf hash: hash_TapLeaf(leaf_version || compact_size(script) || script) -/
+def tapLeafHash (H : Bytes → Bytes) (leafVersion : UInt8) (script : Bytes) : Bytes :=
+  taggedH H tapLeafTag ([leafVersion] ++ varBytes script)
+
 /-- BIP342 extension data -/
 structure TapExt where
   leafHash : Bytes
